@@ -590,7 +590,7 @@ def cmp_unit(name, s, e, o, out):
         return False
     if refused:
         out.append(('%s=%r: _find_unit rejects an expression whose parts it accepts' % (name, s),
-                    {'pow': e['pow'], 'fac': float(e['fac'])}, o))
+                    {'pow': e['pow'], 'fac': float(e['fac'])}, o, ('reject', name)))
         return False
     if tuple(o['pow']) != e['pow']:
         out.append(('%s=%r: powers differ' % (name, s), list(e['pow']), o['pow']))
@@ -700,49 +700,71 @@ def prefixed_tokens(c):
     return [leaf_token(t) for key in ('e', 'a', 'b', 'c') if key in c for t in leaves(c[key]) if t['op'] == 'u' and t['p']]
 
 
-def classify(lib, c, prior, e_tlc, o):
-    """Recognise the two known mechanisms.  prior: prefixed names looked up earlier in the same history (they are in
-    the unit table).  Returns (class, detail)."""
+def classify(lib, c, prior, bad, o):
+    """Recognise the two known mechanisms.  prior: prefixed names looked up earlier in the same history (they may be in
+    the unit table).  bad: the disagreements found.  Returns (class, detail); class is None unless EVERY disagreement
+    of the case is explained."""
+    classes, detail, rest = [], {}, bad
     # (1) a prefixed name p2+X is in the table, and a later name p1+p2+X, whose only reading over the library is
-    #     (p1 p2)+X with a two-letter prefix, is read as p1+(p2+X)
+    #     (p1 p2)+X with a two-letter prefix, is read as p1+(p2+X): the observed numbers must be exactly those of
+    #     that reading
     overrides, alts = {}, []
-    prior = set(prior) | set(prefixed_tokens(c))
+    table = set(prior) | set(prefixed_tokens(c))
     for key in ('e', 'a', 'b', 'c'):
         for t in (leaves(c[key]) if key in c else []):
             if t['op'] == 'u' and t['p']:
                 tok = leaf_token(t)
                 for p1 in lib.prefixes:
-                    rest = tok[len(p1):]
-                    if len(p1) == 1 and tok.startswith(p1) and rest in prior and rest not in lib.table:
-                        rd = [r for r in lib.readings(rest) if r[0]]
-                        if rd:
+                    rest_ = tok[len(p1):]
+                    if len(p1) == 1 and tok.startswith(p1) and rest_ in table and rest_ not in lib.table:
+                        rd = [r for r in lib.readings(rest_) if r[0]]
+                        if rd and tok not in overrides:
                             p2, x = rd[0]
                             u = lib.table[x]
                             overrides[tok] = (u[0], u[1] * lib.prefixes[p1] * lib.prefixes[p2], None)
                             alts.append('%s read as %s+%s (= %s+%s+%s) instead of %s+%s' %
-                                        (tok, p1, rest, p1, p2, x, t['p'][2:], t['name']))
+                                        (tok, p1, rest_, p1, p2, x, t['p'][2:], t['name']))
     if overrides:
-        alt = expectation_ref(lib, c, overrides)
-        if not compare(dict(c), alt, o):
-            return 'stale-prefix', {'prior': sorted(set(tok[1:] for tok in overrides)), 'alt': alts}
-    # (2) a name with an underscore next to a prefixed name that is not in the table yet: the fallback scan of
-    #     _find_unit splits the underscore name, fails on the pieces and returns None
+        # which of the candidate names were really re-read is decided by the observed numbers
+        import itertools
+        toks = sorted(overrides)[:5]
+        best = None
+        for r in range(len(toks), 0, -1):
+            for sub in itertools.combinations(toks, r):
+                bad1 = compare(dict(c), expectation_ref(lib, c, {t: overrides[t] for t in sub}), o)
+                if {b[0] for b in bad1} < {b[0] for b in bad} and (best is None or len(bad1) < len(best[1])):
+                    best = (sub, bad1)
+        if best is not None:
+            classes.append('stale-prefix')
+            detail.update(prior=sorted(set(tok[1:] for tok in best[0])),
+                          alt=[a for a in alts if a.split(' ')[0] in best[0]])
+            rest = best[1]
+    # (2) a library name with an underscore (plain or prefixed) in an expression that needs the prefix fallback of
+    #     _find_unit (it contains a prefixed name): the fallback's regular expression has no underscore, splits the
+    #     name, fails on the pieces and returns None
+    und_keys = {}
     for key in ('e', 'a', 'b', 'c'):
-        if key in c and ('none' in o[key] if c['k'] != 'unit' else 'none' in o['e']):
-            ls = leaves(c[key])
-            und = [t['name'] for t in ls if t['op'] == 'u' and '_' in t['name']]
-            fresh = [leaf_token(t) for t in ls if t['op'] == 'u' and t['p'] and leaf_token(t) not in prior]
-            if und and fresh:
-                return 'underscore', {'underscore_names': und, 'uncached_prefixed': fresh}
-    return None, {}
+        if key in c and 'none' in o[key]:
+            ls = [t for t in leaves(c[key]) if t['op'] == 'u']
+            und = [leaf_token(t) for t in ls if '_' in t['name']]
+            pre = [leaf_token(t) for t in ls if t['p']]
+            if und and pre:
+                und_keys[key] = {'underscore_names': und, 'prefixed_names': pre}
+    unexplained = [b for b in rest if not (len(b) > 3 and b[3][0] == 'reject' and b[3][1] in und_keys)]
+    if unexplained:
+        return None, {}
+    if rest:
+        classes.append('underscore')
+        detail.update(und_keys)
+    return '+'.join(classes), detail
 
 
 def pred_stale(scenario, info):
-    return info.get('class') == 'stale-prefix'
+    return 'stale-prefix' in (info.get('class') or '').split('+')
 
 
 def pred_underscore(scenario, info):
-    return info.get('class') == 'underscore'
+    return 'underscore' in (info.get('class') or '').split('+')
 
 
 def snippet(c, prior):
@@ -757,6 +779,25 @@ def snippet(c, prior):
     return '\n'.join(lines)
 
 
+def load_replay(path, lib):
+    """one stored violation: the earlier lookups (prefixed names) followed by the case, on a fresh library"""
+    import json
+    with open(path) as fh:
+        sc = json.load(fh)['scenario']
+    cases, fam = [], collections.Counter()
+    for tok in sc.get('looked_up_before', []):
+        rd = [r for r in lib.readings(tok) if r[0]]
+        if not rd:
+            raise MachineryError('replay: cannot read %r as a prefixed library unit' % tok)
+        t = U(rd[0][1], rd[0][0])
+        cases.append({'k': 'unit', 'fam': 'replay-history', 'e': t, 's': {'e': render(t)}})
+    c = dict(k=sc['kind'], fam=sc['family'], s=sc['expr'], **sc['trees'])
+    cases.append(c)
+    for c in cases:
+        fam[c['fam']] += 1
+    return cases, fam, [(sc.get('history', 'replay'), list(range(len(cases))))]
+
+
 # ------------------------------------------------------------------------------------------------ run
 ABSTRACT_CFG = '''CONSTANTS
   NDim = 3
@@ -769,6 +810,7 @@ ABSTRACT_CFG = '''CONSTANTS
   EB2 = 1
   EB3 = 1
   Offs = {"none", "a", "b"}
+  EFull = %(efull)s
 INIT Init
 NEXT Next
 INVARIANT CompatReflexive
@@ -797,6 +839,7 @@ JUDGE_CFG = '''CONSTANTS
   EB2 = 0
   EB3 = 0
   Offs = {}
+  EFull = FALSE
 INIT JInit
 NEXT JNext
 INVARIANT JExport
@@ -810,23 +853,56 @@ def run(ctx):
     ini = os.path.join(os.path.dirname(U_.__file__), 'unit_library.ini')
     lib = Lib(ini)
 
+    replay = getattr(ctx, 'replay', None)
     # ---- 1. the laws on the abstract universe (exhaustive)
     cfg = ctx.write_cfg('UnitsAbstract.cfg', ABSTRACT_CFG % {
         'atoms2': '{"f1", "f2", "f3"}' if quick else '{"f1", "f2", "f3", "f4"}',
         'atoms3': '{"f1", "f2"}' if quick else '{"f1", "f2", "f3"}',
-        'pb3': 1 if quick else 2})
-    ctx.tlc_check('mech/Units', cfg, timeout=3000, heap='8g', workers=WORKERS)
-    ctx.require_actions(['Choose'])
+        'pb3': 1 if quick else 2, 'efull': 'FALSE' if quick else 'TRUE'})
+    abstract = None
+    if not replay:
+        # runs beside the judge / replay below (half of the workers each); joined before the results are used
+        import threading
+        abstract = {}
+
+        def _abstract():
+            try:
+                abstract['r'] = ctx.tlc_check('mech/Units', cfg, timeout=3000, heap='8g', workers=WORKERS // 2)
+            except BaseException as ex:                     # noqa
+                abstract['exc'] = ex
+        abstract['thread'] = threading.Thread(target=_abstract)
+    try:
+        # (the thread is started after the worker pool has been forked)
+        _bind(ctx, lib, replay, quick, abstract['thread'].start if abstract else (lambda: None))
+    finally:
+        if abstract is not None and abstract['thread'].ident is not None:
+            abstract['thread'].join()
+    if abstract is not None:
+        if 'exc' in abstract:
+            raise abstract['exc']
+        ctx.require_actions(['Choose'])
+
+
+def _bind(ctx, lib, replay, quick, start_abstract):
 
     # ---- 2. the shipped library and the cases under the specification
-    cases, fam, prefixed = build_cases(ctx, lib)
+    if replay:
+        cases, fam, chunks = load_replay(replay, lib)
+    else:
+        cases, fam, prefixed = build_cases(ctx, lib)
+        chunks = build_chunks(ctx, cases, random.Random(7919 * ctx.seed + 5))
+    # ---- 3a. replay into units.py (observations only; judged below against TLC's expectations)
+    work = [[(label, [(cases[i]['k'], cases[i]['s']) for i in idx])] for label, idx in chunks]
+    res = pmap(_worker, work, nproc=WORKERS)
+    start_abstract()
+
     keys = ('e', 'a', 'b', 'c')
     payload = {'base': lib.base, 'layers': lib.layers,
                'cases': [dict([('k', c['k'])] + [(k, c[k]) for k in keys if k in c]) for c in cases]}
     path = ctx.write_json('units_cases.json', payload)
     jcfg = ctx.write_cfg('UnitsJudge.cfg', JUDGE_CFG % len(lib.base))
     r = ctx.tlc_check('mech/UnitsJudge', jcfg, env={'UNITS_CASES': path}, timeout=3000, heap='8g', coverage=False,
-                      workers=WORKERS)
+                      workers=WORKERS // 2)
     verdict = {e['tid']: e['v'] for e in r.exports('EXP')}
     if len(verdict) != len(cases):
         raise MachineryError('UnitsJudge returned %d verdicts for %d cases:\n%s' % (len(verdict), len(cases), r.tail()))
@@ -848,11 +924,7 @@ def run(ctx):
                                  (c['s'], e, expectation_ref(lib, c)))
         exps.append(e)
 
-    # ---- 3. replay into units.py
-    rnd = random.Random(7919 * ctx.seed + 5)
-    chunks = build_chunks(ctx, cases, rnd)
-    work = [[(label, [(cases[i]['k'], cases[i]['s']) for i in idx])] for label, idx in chunks]
-    res = pmap(_worker, work, nproc=WORKERS)
+    # ---- 3b. judge the observations
     ctx.register_predicates({FINDING_STALE: pred_stale, FINDING_UNDERSCORE: pred_underscore})
     nobs = ncmp = 0
     skipped = collections.Counter()
@@ -866,17 +938,18 @@ def run(ctx):
             c, e = cases[i], exps[i]
             nobs += 1
             bad = compare(c, e, o)
-            ncmp += 1 + (0 if c['k'] == 'unit' else 10 if c['k'] == 'pair' else 24)
+            ncmp += 8 if c['k'] == 'unit' else 22 if c['k'] == 'pair' else 39
             if c.get('skip'):
                 skipped[c.pop('skip')] += 1
             if c['fam'] not in ('lib-unit',):
                 ctx.note_nontrivial((c['fam'],) + tuple(sorted(c['s'].items())))
             if bad:
-                cls, detail = classify(lib, c, prior, e, o)
+                cls, detail = classify(lib, c, prior, bad, o)
                 classes[cls or 'unclassified'] += 1
                 pr = detail.get('prior', [])
                 scen = {'history': label, 'kind': c['k'], 'family': c['fam'], 'expr': c['s'],
-                        'looked_up_before': pr, 'detail': detail}
+                        'looked_up_before': pr, 'detail': detail,
+                        'trees': {k: c[k] for k in ('e', 'a', 'b', 'c') if k in c}}
                 ctx.violation(scen, bad[0][1], bad[0][2], bad[0][0] + (' [+%d more clauses]' % (len(bad) - 1) if len(bad) > 1 else ''),
                               snippet=snippet(c, pr), info={'class': cls, 'clauses': [b[0] for b in bad]})
             prior.update(prefixed_tokens(c))
@@ -890,7 +963,7 @@ def run(ctx):
     ctx.impl = nobs
     ctx.evaluations = ncmp
     ctx.exhaustive = False
-    for fam_name in ('lib-pair', 'comp-pair', 'offset-triple'):
+    for fam_name in ('lib-pair', 'comp-pair', 'offset-triple') + ((cases[-1]['fam'],) if replay else ()):
         for i, c in enumerate(cases):
             if c['fam'] == fam_name:
                 v = verdict[i + 1]
@@ -906,6 +979,8 @@ def run(ctx):
                 '1-3 (products, quotients, integer powers, parentheses, prefixes, bare numbers) each with a compatible '
                 'partner / a triple, %d library triples; non-trivial = distinct case outside the plain library-unit family'
                 % (fam['lib-pair'], fam['lib-incompatible'], fam['prefixed'], fam['comp-unit'], fam['lib-triple']))
+    if replay:
+        ctx.rule = 'replay of %s: %s' % (replay, dict(fam))
     ctx.assumptions = [
         'float round-off judged at 1e-12 relative (offsets: relative to the magnitude of the offset terms)',
         'composite expressions are restricted to factors within 1e-100..1e100 per subtree (no float overflow) and '
